@@ -193,6 +193,8 @@ def run_case(case, ctx):
     mrng = random.Random(case['seed'] + 5)
     assign = pitlib.apply_channel_masks(pit, mrng, case['mask_mode'])
     expect = c01.assign_time_masks(pit, mrng, case['time_style'])
+    from vf import neutral
+    neutral.maybe_freeze(pit, case['seed'])     # a frozen parameter group changes no cost
     if case['seed'] % 2 == 1:
         # the specification is (re-)assigned when the masks are already pruned: the cost functions
         # must still be the ones of the seed layer kinds (seeded defect C04-A)
